@@ -263,6 +263,47 @@ func mustHashed(fn *ssa.Function, writes []ssa.CallInstruction, k string) (bool,
 	return false, why
 }
 
+// keyFunctions finds, among do and the runner functions it calls, the function
+// that computes the action key (creates the cache.Hash) and the one that looks
+// the key up (calls getCachedFiles) — by what they do, not by name, so that
+// extracting these steps into helpers does not change the analysis.
+func keyFunctions(c *Ctx, entryDo *ssa.Function) (keyFn, lookupFn *ssa.Function) {
+	calleesOf := func(root *ssa.Function, has func(*ssa.Function) bool) *ssa.Function {
+		seen := map[*ssa.Function]bool{}
+		var found *ssa.Function
+		var walk func(fn *ssa.Function, depth int)
+		walk = func(fn *ssa.Function, depth int) {
+			if fn == nil || seen[fn] || depth > 3 || found != nil {
+				return
+			}
+			seen[fn] = true
+			if has(fn) {
+				found = fn
+				return
+			}
+			for _, ci := range Calls(fn, false) {
+				if callee := ci.Common().StaticCallee(); callee != nil && FuncPkgPath(callee) == runnerPkg {
+					walk(callee, depth+1)
+				}
+			}
+		}
+		walk(root, 0)
+		return found
+	}
+	keyFn = calleesOf(entryDo, func(fn *ssa.Function) bool { return len(CallsTo(fn, false, cachePkg+".NewHash")) > 0 })
+	if keyFn == nil {
+		keyFn = entryDo
+	}
+	if keyFn != entryDo {
+		c.Note("the action key is computed in %s (called from do)", keyFn)
+	}
+	lookupFn = calleesOf(entryDo, func(fn *ssa.Function) bool { return len(CallsTo(fn, false, runnerPkg+".getCachedFiles")) > 0 })
+	if lookupFn == nil {
+		lookupFn = entryDo
+	}
+	return keyFn, lookupFn
+}
+
 // linkedPackages returns the import closure of cmd/staticcheck.
 func linkedPackages(c *Ctx) map[string]bool {
 	root := c.Pkgs[Module+"/cmd/staticcheck"]
@@ -347,6 +388,8 @@ func runC04(c *Ctx) {
 	ch := c.Func("go/loader", "computeHash")
 	linked := linkedPackages(c)
 
+	entryDo := do
+	do, lookupFn := keyFunctions(c, entryDo)
 	hashedDo, doWrites := hashedFields(do)
 	hashedCH, chWrites := hashedFields(ch)
 
@@ -652,7 +695,7 @@ func runC04(c *Ctx) {
 
 	c.Rule("R4.5", func() {
 		c.Floor("R4.5", 10)
-		roots := append([]*ssa.Function{do, unc}, analyzerRunFuncs(c)...)
+		roots := append([]*ssa.Function{entryDo, unc}, analyzerRunFuncs(c)...)
 		if len(roots) < 100 {
 			c.Undecided("found only %d analyzer Run functions", len(roots)-1)
 		}
@@ -674,18 +717,17 @@ func runC04(c *Ctx) {
 				}
 				k := fn.String() + " calls " + n
 				e, ok := table["ambient"][k]
-				if ok && e.class == "hashed" {
-					// every such call in this function must feed the key it computes
-					hf, _ := hashedFields(fn)
-					call, isCall := ci.(*ssa.Call)
-					fed := isCall && hf["call:"+n+"@"+itoa(InstrIndex(call))+"/"+itoa(call.Block().Index)]
-					nth := 0
-					for seen[k+"#"+itoa(nth)] {
-						nth++
+				// an ambient value that is written into the cache key computed by the same function is accounted for
+				if call, isCall := ci.(*ssa.Call); isCall {
+					if hf, hw := hashedFields(fn); len(hw) > 0 && hf["call:"+n+"@"+itoa(InstrIndex(call))+"/"+itoa(call.Block().Index)] {
+						nth := 0
+						for seen[k+"::hashed#"+itoa(nth)] {
+							nth++
+						}
+						seen[k+"::hashed#"+itoa(nth)] = true
+						c.Check("ambient value written into the key::"+n+"#"+itoa(nth), ci.Pos(), true, "the value read here flows into a hash write of %s", fn)
+						continue
 					}
-					seen[k+"#"+itoa(nth)] = true
-					c.Check(k+"::result-is-hashed#"+itoa(nth), ci.Pos(), fed, "the value read from the environment here must be written into the cache key computed by this function (%s)", e.reason)
-					continue
 				}
 				if ok && (strings.HasPrefix(e.class, "filehash ") || strings.HasPrefix(e.class, "opens ")) {
 					field := strings.TrimPrefix(strings.TrimPrefix(e.class, "filehash "), "opens ")
@@ -767,7 +809,7 @@ func runC04(c *Ctx) {
 	c.Rule("R4.6", func() {
 		c.Floor("R4.6", 4)
 		var lookups []*ssa.Call
-		for _, ci := range CallsTo(do, false, runnerPkg+".getCachedFiles") {
+		for _, ci := range CallsTo(lookupFn, false, runnerPkg+".getCachedFiles") {
 			if call, ok := ci.(*ssa.Call); ok {
 				lookups = append(lookups, call)
 			}
@@ -784,10 +826,10 @@ func runC04(c *Ctx) {
 				}
 			}
 		}
-		missEdges := ComplementEdges(ErrNilEdges(do, func(v ssa.Value) bool { return DerivesLocal(v, func(x ssa.Value) bool { return x == ssa.Value(lk) }) }))
-		// fields written on the miss branch of do, and by doUncached
+		missEdges := ComplementEdges(ErrNilEdges(lookupFn, func(v ssa.Value) bool { return DerivesLocal(v, func(x ssa.Value) bool { return x == ssa.Value(lk) }) }))
+		// fields written on the miss branch of lookupFn, and by doUncached
 		written := map[string]token.Pos{}
-		Instrs(do, false, func(in ssa.Instruction) {
+		Instrs(lookupFn, false, func(in ssa.Instruction) {
 			st, ok := in.(*ssa.Store)
 			if !ok {
 				return
@@ -800,7 +842,7 @@ func runC04(c *Ctx) {
 			if f == nil || !(strings.HasSuffix(owner, "runner.packageAction") || strings.HasSuffix(owner, "runner.baseAction")) {
 				return
 			}
-			if ok, _ := MustPassEdges(do, st, missEdges); ok {
+			if ok, _ := MustPassEdges(lookupFn, st, missEdges); ok {
 				written[shortOwner(owner)+"."+f.Name()] = st.Pos()
 			}
 		})
@@ -829,19 +871,19 @@ func runC04(c *Ctx) {
 			case k == "runner.baseAction.failed" || k == "runner.baseAction.errors":
 				// allowed only in doUncached on a path that ends without caching: do returns before writing when a.failed
 				okFail := true
-				Instrs(do, false, func(in ssa.Instruction) {
+				Instrs(lookupFn, false, func(in ssa.Instruction) {
 					st, ok := in.(*ssa.Store)
 					if ok && (IsFieldOf("baseAction", "failed")(st.Addr) || IsFieldOf("baseAction", "errors")(st.Addr)) {
 						okFail = false
 					}
 				})
 				// and do() must test a.failed before any writeCache call
-				failedEdges := CondEdges(do, func(cond ssa.Value) (bool, bool) {
+				failedEdges := CondEdges(lookupFn, func(cond ssa.Value) (bool, bool) {
 					u, ok := cond.(*ssa.UnOp)
 					return ok && u.Op == token.MUL && IsFieldOf("baseAction", "failed")(u.X), false
 				})
-				for _, w := range CallsTo(do, false, runnerPkg+".Runner.writeCacheReader", runnerPkg+".Runner.writeCacheGob") {
-					if ok, _ := MustPassEdges(do, w, failedEdges); !ok {
+				for _, w := range CallsTo(lookupFn, false, runnerPkg+".Runner.writeCacheReader", runnerPkg+".Runner.writeCacheGob") {
+					if ok, _ := MustPassEdges(lookupFn, w, failedEdges); !ok {
 						okFail = false
 					}
 				}
